@@ -12,7 +12,8 @@ pub fn corpus() -> Vec<&'static str> {
     vec!["a", "(a b c)", "(a . b)", "[a . b]", "[a b]", "(a [b . c] d)", "first (x [1 2 . 3] y) last", "(a . (b c))", "(a . #nil)", "(1 2 . #nil)", "(a . ())",
          "#(1 2 #(3))", "#u8(1 2 3)", "'a", "'(a . b)", "`(a ,b ,@c)", "(a . 'b)", "(a . `(b))", "((a . b) . (c . d))", "(.a .b)", "(a .b)", "\"s\" #\\c 1.5 -3 #t #f #nil nil t",
          "#:k :k k:", "()", "(())", "[ ]", "#()", "(a", "(a . b c)", "(a . )", "( . a)", "(a]", "[a)", "#(1", "'", "(a . b", "1 2 (3 4", "a ) b", "#u8(1 300)",
-         "(a b . c d)", "((((a))))", "(nil . nil)", "(t . t)", "x ; c\n y", "#(a . b)", "[a . b)", "(a . b]", "'[a . b]", "#([a . b])", "(1 #z) 2", "#(1 #z) 2", "(a . ())", "'a '(1 2)", "(define x '(1 2))", "#('a)", "(a . (b . ()))"]
+         "(a b . c d)", "((((a))))", "(nil . nil)", "(t . t)", "x ; c\n y", "#(a . b)", "[a . b)", "(a . b]", "'[a . b]", "#([a . b])", "(1 #z) 2", "#(1 #z) 2", "(a . ())", "'a '(1 2)", "(define x '(1 2))", "#('a)", "(a . (b . ()))",
+         "(a .(b c))", "(1 .[2 3])", "(a .; c\n b)", "(k .\"text\")", "(a .)", "(a .'b)", "(a .#t)", "(a . .b)", "(-;c\n)", "(a -(b))", "(+)", "(a +\"s\")", "-;c\n", "(a . b;c\n)", "(a .\tb)", "(a(b)\"s\"[c])", "#(1 2]", "[1 2)", "(a #(1 2] b)", "nil (nil) (a . nil) #(nil) 'nil [nil]", "t (t) 't"]
 }
 pub fn optsets() -> Vec<Options> {
     vec![Options::default(), Options::new(), Options::elisp(), Options::new().with_brackets(Brackets::Vector),
